@@ -3,6 +3,7 @@ package jsonschema
 
 import (
 	"errors"
+	"math"
 	"reflect"
 	"regexp"
 	"slices"
@@ -380,26 +381,28 @@ func (ctx *fromJSONSchemaContext) convertNumber(s *lib.Schema) (core.ZodSchema, 
 func (ctx *fromJSONSchemaContext) convertInteger(s *lib.Schema) (core.ZodSchema, error) {
 	schema := types.Int()
 
-	// Apply constraints
+	// Apply constraints. A fractional bound is rounded to the integer bound
+	// that admits the same integers (truncation toward zero would move it).
 	if s.Minimum != nil {
 		val, _ := s.Minimum.Float64()
-		schema = schema.Min(int64(val))
+		schema = schema.Min(int64(math.Ceil(val)))
 	}
 	if s.Maximum != nil {
 		val, _ := s.Maximum.Float64()
-		schema = schema.Max(int64(val))
+		schema = schema.Max(int64(math.Floor(val)))
 	}
 	if s.ExclusiveMinimum != nil {
 		val, _ := s.ExclusiveMinimum.Float64()
-		schema = schema.Gt(int64(val))
+		schema = schema.Gt(int64(math.Floor(val)))
 	}
 	if s.ExclusiveMaximum != nil {
 		val, _ := s.ExclusiveMaximum.Float64()
-		schema = schema.Lt(int64(val))
+		schema = schema.Lt(int64(math.Ceil(val)))
 	}
 	if s.MultipleOf != nil {
-		val, _ := s.MultipleOf.Float64()
-		schema = schema.MultipleOf(int64(val))
+		// An integer is a multiple of p/q (in lowest terms) exactly when it is
+		// a multiple of p.
+		schema = schema.MultipleOf(s.MultipleOf.Num().Int64())
 	}
 
 	return schema, nil
